@@ -17,7 +17,8 @@ Record case := mk {
   c_dedupe : bool;
   c_envs : list (list (string * string));
   c_state : result coll;
-  c_obs : result (list orec * option err)
+  c_obs : result (list orec * option err);
+  c_split : nat       (* 0: one execute() call; k: execute(first k requests), then execute(the rest) *)
 }.
 
 Definition tree_equiv (x y : tree) : bool := dict_equiv x y && dict_equiv y x.
@@ -55,7 +56,7 @@ Definition corr (c : case) : bool :=
   | Err e1, Err e2 => err_eqb e1 e2
   | Ok m, Ok s =>
       coll_eqb m s &&
-      match session m (c_init c) (c_bodies c) (c_reqs c) (c_dflt c) (c_dedupe c) (c_envs c),
+      match session_split m (c_init c) (c_bodies c) (c_reqs c) (c_dflt c) (c_dedupe c) (c_envs c) (c_split c),
             c_obs c with
       | Ok (recs, er), Ok (orecs, oer) => all2 rec_eqb recs orecs && opt_err_eqb er oer
       | Err e, Err e' => err_eqb e e'
@@ -93,7 +94,7 @@ Definition obs_for_spec (c : case) : result (list C19Spec.brecord * option err) 
 (** F-C19: calls without a name (pre/post tasks, the implicitly chosen
     default task) are judged against the root collection's configuration *)
 Definition paths_fc19 (c : case) (s : coll) (recs : list C19Spec.brecord) : list (option (list dict)) :=
-  let calls := session_calls (c_reqs c) (c_dflt c) (c_dedupe c) in
+  let calls := session_calls_split (c_reqs c) (c_dflt c) (c_dedupe c) (c_split c) in
   (fix go (rs : list C19Spec.brecord) (cs : list ecall) : list (option (list dict)) :=
      match rs, cs with
      | r :: rs', (_, called_as) :: cs' =>
@@ -119,3 +120,27 @@ Definition adj_fc19 (c : case) : bool := adj false true c.
 (** F-C06a: a dict-valued write is merged, not a replacement *)
 Definition adj_fc06a (c : case) : bool := adj true false c.
 Definition adj_both (c : case) : bool := adj true true c.
+
+(** F-C19c: a body wrote a setting whose variable name another setting already
+    has; the next reload refuses (AmbiguousEnvVar) although the environment
+    does not set that variable.  Adjusted judgement: exactly that error
+    escaped, every body that ran is as specified, and two settings of the last
+    view on exit / of the tree's configurations do share a variable name. *)
+Definition adj_fc19c_gen (mw fc19 : bool) (c : case) : bool :=
+  match c_state c, obs_for_spec c with
+  | Ok s, Ok (recs, Some EAmbigEnv) =>
+      match rev recs with
+      | [] => false
+      | (_, _, _, v1) :: _ =>
+          env_ambiguous (nub_paths (map fst (leaf_paths (Node v1)) ++
+                                    flat_map (fun g => map fst (leaf_paths (Node g))) (all_configs s))) &&
+          spec_gen mw (if fc19 then paths_fc19 c s
+                       else map (fun r : C19Spec.brecord => home s (fst (fst (fst r)))))
+                   s (i_defaults (c_init c)) (i_overrides (c_init c)) (body_of (c_bodies c)) (c_envs c)
+                   (Ok (recs, None))
+      end
+  | _, _ => false
+  end.
+
+Definition adj_fc19c (c : case) : bool := adj_fc19c_gen false false c.
+Definition adj_fc19c_all (c : case) : bool := adj_fc19c_gen true true c.
